@@ -86,7 +86,10 @@ func (ex *Exec) call(in ssa.Instruction, c *ssa.CallCommon) Val {
 			}
 			names = append(names, n)
 		}
-		return ex.applyContract(fc, key, names, args, sig, rt, pos, c.Method.Pkg())
+		ex.measureSt = ex.curSt
+		r := ex.applyContract(fc, key, names, args, sig, rt, pos, c.Method.Pkg())
+		ex.checkCallMeasure(fc, key, names, args, pos, c.Method.Pkg())
+		return r
 	}
 	if b, ok := c.Value.(*ssa.Builtin); ok {
 		return ex.builtin(b, c, rt, pos)
@@ -135,6 +138,7 @@ func (ex *Exec) call(in ssa.Instruction, c *ssa.CallCommon) Val {
 		} else if callee.Object() != nil {
 			pk = callee.Object().Pkg()
 		}
+		ex.measureSt = ex.curSt
 		r := ex.applyContract(fc, key, names, args, callee.Signature, rt, pos, pk)
 		// recursion / termination measure
 		ex.checkCallMeasure(fc, key, names, args, pos, pk)
@@ -589,9 +593,7 @@ func (ex *Exec) panicSiteCond(pos token.Pos, what, cond, label string) {
 	if r.fc != nil && len(r.fc.PanicsIf) > 0 && r.panicsIfTerms != nil {
 		allowed = or(r.panicsIfTerms...)
 	}
-	if ex.handlerDepth() > 0 {
-		// inside a function with a recover handler: panics are caught — handled by the caller of runDefers
-		ex.em.Assumed["panic at "+ex.position(pos).String()+" is caught by a deferred recover"] = true
+	if ex.root().specMode == 0 && ex.handlePanic(ex.curPC, not(cond), ex.pendingPanicVal) {
 		return
 	}
 	goal := implies(cond, allowed)
@@ -616,14 +618,14 @@ func (ex *Exec) handlerDepth() int {
 
 func (ex *Exec) checkCallMeasure(fc *FuncContract, key string, names []string, args []Val, pos token.Pos, pkg *types.Package) {
 	r := ex.root()
-	if r.fc == nil || r.fc.Decr == nil || fc.Decr == nil {
+	if r.fc == nil || r.entryMeasure == nil || fc.Decr == nil || r.specMode > 0 {
 		return
 	}
-	if !ex.eng.sameSCC(r.key, key) {
+	if !fc.Iface && !ex.eng.sameSCC(r.key, key) {
 		return
 	}
 	env := ex.contractEnv(fc, names, args, pkg, "measure of "+key)
-	env.st, env.old = ex.curSt, ex.curSt
+	env.st, env.old = ex.measureSt, ex.measureSt
 	var callee []string
 	for _, e := range fc.Decr.Exprs {
 		callee = append(callee, env.evalInt(e))
